@@ -7,7 +7,7 @@ sys.path.insert(0, os.path.dirname(os.path.abspath(__file__)))
 from _util import canon, err_info
 
 PRE = '''from dataclasses import dataclass, field
-from typing import Union, Optional, List, Dict, Tuple
+from typing import Union, Optional, List, Dict, Tuple, NamedTuple, TypedDict
 from typing_extensions import Annotated
 from dataclass_wizard import JSONWizard, LoadMeta, DumpMeta, fromdict, asdict, CatchAll
 from dataclass_wizard import KeyPath, path_field, json_field, json_key, skip_if_field, EQ
@@ -28,6 +28,8 @@ def member_src(i, m, engine):
         meta['tag'] = m['tag']
     if m.get('own_auto'):
         meta['auto_assign_tags'] = True
+    if m.get('own_tag_key') is not None:
+        meta['tag_key'] = m['own_tag_key']
     if engine == 'v1' and (meta or m['style'] == 'inner'):
         meta['v1'] = True
     base = '(JSONWizard)' if m['style'] == 'inner' else ''
@@ -53,7 +55,8 @@ def member_src(i, m, engine):
     return '\n'.join(out) + '\n'
 
 
-POS = {'direct': '%s', 'opt': 'Optional[%s]', 'list': 'List[%s]', 'dict': 'Dict[str, %s]', 'tuple': 'Tuple[%s, int]',
+POS = {'nt': 'NT', 'td': 'TD', 'ntlist': 'List[NT]',     # the Union sits inside a NamedTuple field / TypedDict value
+       'direct': '%s', 'opt': 'Optional[%s]', 'list': 'List[%s]', 'dict': 'Dict[str, %s]', 'tuple': 'Tuple[%s, int]',
        'vtuple': 'Tuple[%s, ...]', 'listdict': 'List[Dict[str, %s]]', 'optlist': 'Optional[List[%s]]'}
 WRAP = {'direct': lambda x: x, 'opt': lambda x: x, 'list': lambda x: [x], 'dict': lambda x: {'k': x},
         'tuple': lambda x: (x, 1), 'vtuple': lambda x: (x,), 'listdict': lambda x: [{'k': x}], 'optlist': lambda x: [x]}
@@ -75,16 +78,41 @@ def build_source(cfg):
         meta['tag_key'] = c['tag_key']
     if c.get('auto_assign_tags'):
         meta['auto_assign_tags'] = True
+    if c.get('recursive') is False:
+        meta['recursive'] = False
     if eng == 'v1':
         meta['v1'] = True
         if c.get('unknown') == 'raise':
             meta['v1_on_unknown_key'] = 'RAISE'
     elif c.get('unknown') == 'raise':
         meta['raise_on_unknown_json_key'] = True
-    out = ['@dataclass', 'class C(JSONWizard):', '    class _(JSONWizard.Meta):']
-    out.extend(['        %s = %r' % kv for kv in meta.items()] or ['        pass'])
-    out.append('    u: %s' % (POS[c['position']] % ('Union[%s]' % ', '.join(args))))
-    return src + '\n'.join(out) + '\n'
+    union = 'Union[%s]' % ', '.join(args)
+    if c['position'] in ('nt', 'ntlist'):
+        src += 'class NT(NamedTuple):\n    shape: %s\n    count: int\n' % union
+    if c['position'] == 'td':
+        src += 'class TD(TypedDict):\n    pet: %s\n' % union
+    ann = POS[c['position']] % union if '%s' in POS[c['position']] else POS[c['position']]
+    holder = c.get('holder')
+
+    def cls_lines(name, m, field_line, no_meta):
+        out = ['@dataclass', 'class %s(JSONWizard):' % name]
+        if not no_meta:
+            out.append('    class _(JSONWizard.Meta):')
+            out.extend(['        %s = %r' % kv for kv in m.items()] or ['        pass'])
+        out.append('    ' + field_line)
+        return '\n'.join(out) + '\n'
+    if holder:
+        # the Union field lives in a holder class H with its own Meta, nested below the container C
+        hm = {}
+        if holder.get('tag_key') is not None:
+            hm['tag_key'] = holder['tag_key']
+        if eng == 'v1':
+            hm['v1'] = True
+        src += cls_lines('H', hm, 'u: %s' % ann, no_meta=not hm and not holder.get('meta'))
+        src += cls_lines('C', meta, 'u: %s' % ('List[H]' if holder.get('list') else 'H'), no_meta=bool(c.get('no_meta')))
+    else:
+        src += cls_lines('C', meta, 'u: %s' % ann, no_meta=bool(c.get('no_meta')))
+    return src
 
 
 class MyDict(dict):
@@ -134,11 +162,36 @@ def main():
     n = len(cfg['members'])
 
     kind = cfg.get('doc_type', 'dict')
+    holder = cfg['container'].get('holder')
+    if pos in ('nt', 'ntlist', 'td'):
+        WRAP.update({'nt': lambda x: ns['NT'](x, 1), 'ntlist': lambda x: [ns['NT'](x, 1)], 'td': lambda x: {'pet': x}})
+        UNWRAP.update({'nt': lambda v: v[0], 'ntlist': lambda v: v[0][0], 'td': lambda v: v['pet']})
+
+    def mk_container(k):
+        inner = WRAP[pos](k)
+        if holder:
+            h = ns['H'](u=inner)
+            return C(u=[h] if holder.get('list') else h)
+        return C(u=inner)
+
+    def member_of_dump(d):
+        v = d['u']
+        if holder:
+            v = (v[0] if holder.get('list') else v)['u']
+        return UNWRAP[pos](v)
+
+    def member_of_inst(c):
+        v = c.u
+        if holder:
+            v = (v[0] if holder.get('list') else v).u
+        return UNWRAP[pos](v)
 
     def load(nested_doc):
-        full = retype(json.loads(json.dumps({'u': WRAP[pos](nested_doc)})), kind)
-        c = fromdict(C, full)
-        return UNWRAP[pos](c.u)
+        inner = WRAP[pos](nested_doc) if pos not in ('nt', 'ntlist') else ([nested_doc, 1] if pos == 'nt' else [[nested_doc, 1]])
+        if holder:
+            inner = [{'u': inner}] if holder.get('list') else {'u': inner}
+        full = retype(json.loads(json.dumps({'u': inner})), kind)
+        return member_of_inst(fromdict(C, full))
 
     def build(member, values):
         """instance of member class from JSON values; nested dataclasses by the member's `kinds` map"""
@@ -167,31 +220,34 @@ def main():
                 # dump a member instance, replace / remove the tag in the dumped dict, load it
                 K = ns['K%d' % op['member']]
                 k = build(op['member'], op['values'])
-                d = json.loads(json.dumps(asdict(C(u=WRAP[pos](k)))))
-                nested = UNWRAP[pos](d['u'])
-                tk = op['tag_key']
+                d = json.loads(json.dumps(asdict(mk_container(k))))
+                nested = member_of_dump(d)
+                # the key the dump wrote the tag under (whatever level configured it)
+                tk = next((kk for kk, vv in nested.items() if vv == op.get('cur_tag') and kk in op.get('tag_keys', [])),
+                          op['tag_key']) if isinstance(nested, dict) else op['tag_key']
+                r['tag_key_found'] = tk
                 r['had_tag'] = nested.get(tk) if isinstance(nested, dict) else None
                 if op['tag'] is None:
                     nested.pop(tk, None)
                 else:
                     nested[tk] = op['tag']
-                k2 = UNWRAP[pos](fromdict(C, retype(d, kind)).u)
+                k2 = member_of_inst(fromdict(C, retype(d, kind)))
                 r['loaded_member'] = which(ns, n, k2)
                 r['loaded'] = canon(k2)
             elif op['op'] == 'roundtrip':
                 K = ns['K%d' % op['member']]
                 k = build(op['member'], op['values'])
-                d = asdict(C(u=WRAP[pos](k)))
-                nested = UNWRAP[pos](d['u'])
+                d = asdict(mk_container(k))
+                nested = member_of_dump(d)
                 r['dumped'] = canon(nested)
-                k2 = UNWRAP[pos](fromdict(C, retype(json.loads(json.dumps(d)), kind)).u)
+                k2 = member_of_inst(fromdict(C, retype(json.loads(json.dumps(d)), kind)))
                 r['loaded_member'] = which(ns, n, k2)
                 r['equal'] = bool(k2 == k) and type(k2) is K
                 r['loaded'] = canon(k2)
             elif op['op'] == 'scalar':
                 v = op['value']
-                d = asdict(C(u=WRAP[pos](v)))
-                v2 = UNWRAP[pos](fromdict(C, json.loads(json.dumps(d))).u)
+                d = asdict(mk_container(v))
+                v2 = member_of_inst(fromdict(C, json.loads(json.dumps(d))))
                 r['equal'] = (v2 == v and type(v2) is type(v))
             elif op['op'] == 'alone_dump':       # earlier use: the member class dumped on its own
                 K = ns['K%d' % op['member']]
@@ -206,6 +262,10 @@ def main():
         except ParseError as e:
             r.update(err_info(e))       # keep what was observed before the error (e.g. the dump of a round trip)
             vt = e.kwargs.get('valid_tags')
+            b = e
+            while vt is None and isinstance(getattr(b, 'base_error', None), ParseError):
+                b = b.base_error            # e.g. v1 TypedDict helper re-wraps the Union's ParseError
+                vt = b.kwargs.get('valid_tags')
             r['valid_tags'] = sorted(vt) if isinstance(vt, list) else None
             r['input_tag'] = e.kwargs.get('input_tag')
             r['tag_key'] = e.kwargs.get('tag_key')
